@@ -219,13 +219,32 @@ struct Shape {
 typedef BD_Shape<mpq_class> BDS;
 typedef Octagonal_Shape<mpq_class> OCT;
 
+
+// custom stop points:  W = CC76sp[q1,q2,...]  (ascending rationals n or n/d; may be empty)
+static bool parse_sp(const std::string& W, std::vector<mpq_class>& sp) {
+  if (W.compare(0, 7, "CC76sp[") != 0 || W[W.size() - 1] != ']') return false;
+  std::string body = W.substr(7, W.size() - 8), cur;
+  for (size_t i = 0; i <= body.size(); ++i) {
+    if (i == body.size() || body[i] == ',') { if (!cur.empty()) { mpq_class q(cur); q.canonicalize(); sp.push_back(q); } cur.clear(); }
+    else cur += body[i];
+  }
+  return true;
+}
+template <typename N> static std::vector<N> to_n(const std::vector<mpq_class>& sp) {
+  std::vector<N> v(sp.size());
+  for (size_t i = 0; i < sp.size(); ++i) assign_r(v[i], sp[i], ROUND_NOT_NEEDED);
+  return v;
+}
 template <typename T> struct Ops;
 template <> struct Ops<BDS> {
   static const char* kind() { return "BDS"; }
   static std::string flags(const BDS& x) { std::ostringstream os; x.status.ascii_dump(os); return os.str(); }
   static void widen(BDS& x, const std::string& W, const BDS& y, unsigned* tp) {
     if (W == "BHMZ05") x.BHMZ05_widening_assign(y, tp); else if (W == "H79") x.H79_widening_assign(y, tp);
-    else if (W == "CC76") x.CC76_extrapolation_assign(y, tp); else throw std::runtime_error("case: unknown widening " + W); }
+    else if (W == "CC76") x.CC76_extrapolation_assign(y, tp);
+    else { std::vector<mpq_class> sp; if (!parse_sp(W, sp)) throw std::runtime_error("case: unknown widening " + W);
+           std::vector<BDS::coefficient_type> v = to_n<BDS::coefficient_type>(sp);
+           x.CC76_extrapolation_assign(y, v.begin(), v.end(), tp); } }
   static void lim(BDS& x, const std::string& W, const BDS& y, const Constraint_System& cs, unsigned* tp) {
     if (W == "BHMZ05") x.limited_BHMZ05_extrapolation_assign(y, cs, tp); else if (W == "H79") x.limited_H79_extrapolation_assign(y, cs, tp);
     else if (W == "CC76") x.limited_CC76_extrapolation_assign(y, cs, tp); else throw std::runtime_error("case: unknown widening " + W); }
@@ -235,7 +254,9 @@ template <> struct Ops<OCT> {
   static std::string flags(const OCT& x) { std::ostringstream os; x.status.ascii_dump(os); return os.str(); }
   static void widen(OCT& x, const std::string& W, const OCT& y, unsigned* tp) {
     if (W == "BHMZ05") x.BHMZ05_widening_assign(y, tp); else if (W == "CC76") x.CC76_extrapolation_assign(y, tp);
-    else throw std::runtime_error("case: unknown widening " + W); }
+    else { std::vector<mpq_class> sp; if (!parse_sp(W, sp)) throw std::runtime_error("case: unknown widening " + W);
+           std::vector<OCT::coefficient_type> v = to_n<OCT::coefficient_type>(sp);
+           x.CC76_extrapolation_assign(y, v.begin(), v.end(), tp); } }
   static void lim(OCT& x, const std::string& W, const OCT& y, const Constraint_System& cs, unsigned* tp) {
     if (W == "BHMZ05") x.limited_BHMZ05_extrapolation_assign(y, cs, tp); else if (W == "CC76") x.limited_CC76_extrapolation_assign(y, cs, tp);
     else throw std::runtime_error("case: unknown widening " + W); }
@@ -244,7 +265,10 @@ template <> struct Ops<Rational_Box> {
   static const char* kind() { return "BOX"; }
   static std::string flags(const Rational_Box& x) { std::ostringstream os; x.status.ascii_dump(os); return os.str(); }
   static void widen(Rational_Box& x, const std::string& W, const Rational_Box& y, unsigned* tp) {
-    if (W == "CC76") x.CC76_widening_assign(y, tp); else throw std::runtime_error("case: unknown widening " + W); }
+    if (W == "CC76") x.CC76_widening_assign(y, tp);
+    else { std::vector<mpq_class> sp; if (!parse_sp(W, sp)) throw std::runtime_error("case: unknown widening " + W);
+           if (tp != 0) throw std::runtime_error("case: the stop-point overload of Box::CC76_widening_assign takes no tokens");
+           x.CC76_widening_assign(y, sp.begin(), sp.end()); } }
   static void lim(Rational_Box& x, const std::string& W, const Rational_Box& y, const Constraint_System& cs, unsigned* tp) {
     if (W == "CC76") x.limited_CC76_extrapolation_assign(y, cs, tp); else throw std::runtime_error("case: unknown widening " + W); }
 };
